@@ -370,7 +370,7 @@ def module_answer(project, path):
             scope = pm.get_scope()
             snames = sorted(set(scope.get_names()) - set(scope.builtin_names))
             looks = []
-            for nm in ["e%d" % k for k in range(NMOD)] + ["x0", "K0"]:
+            for nm in ["e%d" % k for k in range(NMOD)] + ["l0", "l1", "l2", "x0", "K0"]:
                 pn = scope.lookup(nm)
                 if pn is None:
                     looks.append((nm, None))
@@ -409,7 +409,7 @@ def rich_answers(project, sel):
         ans["get_python_files"] = tuple(sorted(r.path for r in project.get_python_files()))
     for nm in sel.get("find", []):
         r = project.find_module(nm)
-        ans["find_module:" + nm] = None if r is None else r.path
+        ans["find_module:" + nm] = None if r is None else (r.path if r.project is project else "<python_path>/" + r.name)
     for p in sel.get("modules", []):
         ans["module:" + p] = module_answer(project, p)
     for (p, nm) in sel.get("occ", []):
